@@ -150,6 +150,10 @@ class RuleGen:
             d["constant_offset"] = const(k)
         if b is not None:
             d["register_multiplier"] = node if capfield == "register_multiplier" else reg(b)
+            if capfield == "main_reg" and self.rng.random() < 0.5:
+                node2 = self.regfam_node(b)          # a second register capture in the same memory operand (base and index)
+                if node2 is not None:
+                    d["register_multiplier"] = node2
         if c is not None:
             d["constant_multiplier"] = const(c)
         if self.rng.random() < 0.25 and capfield != "main_reg":
@@ -250,7 +254,10 @@ class RuleGen:
         rng = self.rng
         own = self.op_name(field) if rng.random() < 0.3 else None
         d = own if own is not None else self.decoy_operand()
-        if self.ocaps and rng.random() < 0.35:
+        if rng.random() < 0.18:
+            own_d = self.deref_for(field) if field.startswith("[") else None
+            d = own_d if own_d is not None and rng.random() < 0.6 else {"$deref": {"main_reg": rng.choice(["%rax", "rbp", "%rsi"])}}      # a $deref as the argument
+        elif self.ocaps and rng.random() < 0.35:
             d = rng.choice(self.ocaps)[0]          # a capture bound earlier as the argument: rejects exactly the bound text
         elif self.regcaps and rng.random() < 0.25:
             d = rng.choice(self.regcaps)[0] + ".64"
@@ -493,7 +500,11 @@ class RuleGen:
                 x = {"$or": self.shuffled([x, self.decoy_item()])}
             elif r3 < 0.57:
                 x = {"$not": [x]}          # a negation of a negation: matches one instruction at which x DOES match
-            elif r3 < 0.67 and left >= 2:
+            elif r3 < 0.75:
+                # three operator levels plus a repetition: $not: [$or: [x, {$or: [a, b], times: n}]]
+                a_, b_ = self.decoy_item(), (self.item_for(idx, allow_times=False)[0] if rng.random() < 0.5 else self.decoy_item())
+                x = {"$or": self.shuffled([x, {"$or": self.shuffled([a_, b_]), "times": rng.choice([2, 2, {"min": 0, "max": 1}, {"min": 1, "max": 2}])}])}
+            elif r3 < 0.85 and left >= 2:
                 two = self.seq_for(idx, 2, f.max_depth)
                 if two and two[1] == 2:
                     x = {"$not": [{"$and": two[0]}]}    # not-not of a two-instruction group that matches here: still ONE instruction
